@@ -24,7 +24,10 @@ def gen(rng, tier):
     left = "cfg" if rng.chance(0.6) else "pda"
     if left == "cfg":
         g = GC.gen_cfg(rng, max_vars=3, max_prods=6, max_body=3)
-        symmode = "V" if g["valmode"] == "V" else "str"
+        if g["valmode"] in ("str", "V") and rng.chance(0.2):
+            g.update(valmode=rng.pick(["mixed", "binint", "binint"]), hash=None, hashmode="plain")
+        # the automaton's symbols are the grammar's terminal values, also when those are ints and floats
+        symmode = "V" if g["valmode"] == "V" else "cfg:" + g["valmode"] if g["valmode"] in GC.TERM_MAPS else "str"
         terms = g["terms"]
     else:
         p = GP.gen_pda(rng, reserved=False)
@@ -46,7 +49,7 @@ def gen(rng, tier):
     else:
         kind = {"dfa": "dfa", "nfa": "nfa", "enfa": "enfa", "det_as_nfa": "dfa", "det_as_enfa": "dfa"}[rk]
         fa = GF.gen_fa(rng, kind=kind, max_states=3, max_symbols=3, max_trans=6, adversarial=False,
-                       plain_symbols=(symmode == "str"))
+                       plain_symbols=(symmode != "V"))
         # use the left operand's symbols (partly overlapping alphabets)
         ren = dict(zip(GF.SYMBOLS, pool))
         ren.update(dict(zip(GF.MULTI_SYMBOLS, pool + [pool[0]])))
@@ -67,7 +70,9 @@ def gen(rng, tier):
             # an automaton built around words the left operand generates (prefix tree of a sample, plus noise), so that
             # the intersection is non-empty and strictly smaller more often than with an unrelated automaton
             if left == "cfg":
-                src_words = sorted(tuple(k.split(":", 1)[1] for k in w) for w in GC.ref_of(g).words_upto(N))
+                back = {GC.key(GC.val(g, t)): t for t in g["terms"]}
+                src_words = sorted(tuple(back.get(k, k.split(":", 1)[1]) for k in w)
+                                   for w in GC.ref_of(g).words_upto(N))
             else:
                 src_words = sorted(GP.ref_of(p).lang_final_state(N))
             src_words = [w for w in src_words if all(x in pool for x in w)]
